@@ -335,7 +335,7 @@ def run(ctx):
     for f, node, form, winner in scope_precedence_sites(ctx.repo):
         n5 += 1
         ctx.check("R5", f"{f.local}: {form}", winner == "inner", f, node,
-                  f"{form}: the OUTER scope's binding wins here while node inputs resolve innermost-first: for a shadowed name the IR links a "
+                  f"{form}: {'EVERY scope that binds the name contributes here' if winner == 'all' else 'the OUTER scope binding wins here'} while node inputs resolve innermost-first: for a shadowed name the IR links a "
                   "sharding spec to a value that is not an input/output of its node",
                   how="stack order is outer→inner; form of the scan classified (direction × first-hit/last-write)", construct=form)
     ctx.require(n5 >= 2, "scope stack scans of the deserializer not found")
